@@ -15,7 +15,8 @@ func init() {
 		Explanation: "Convergence itself is a history property. Decided: (1) the re-push gate — SYNCHRONIZED and the applied term/master are written either when nothing was ever applied (Applied.Index == 0) or after a loop in which every iteration performs the southbound Set and leaves the function on any error, the loop ranging over a collection into which every element of Status.Applied.Values was put unconditionally; " +
 			"(2) SYNCHRONIZING is entered exactly when the mastership term is ahead of the applied term (non-persistent targets), and the re-push runs only while SYNCHRONIZING under the master guards; (3) nothing new is applied while SYNCHRONIZING or in a stale applied term; " +
 			"(4) sent == recorded: the SetRequest of an apply and the update of Applied.Values derive from the same cascade result, Applied.Values is written only after a successful Set, and not at all on the failure path; (5) every offline branch before the Set (no master, relation or connection missing, not the master node, synchronizing, stale term) returns nil without any write; " +
-			"(6) distinct logical stores use distinct Atomix primitives (committed and applied value maps); (7) the request builder puts every input element into exactly one of Delete (iff Deleted) or Update, aborts the whole request on a conversion error, and sets the target prefix.",
+			"(6) distinct logical stores use distinct Atomix primitives (committed and applied value maps); (7) the request builder puts every input element into exactly one of Delete (iff Deleted) or Update, aborts the whole request on a conversion error, and sets the target prefix." +
+			" Also: the record written by the configuration store carries no embedded value map (C04.13).",
 		Declined: []string{"that the device's state equals what was sent", "convergence over histories and fault sequences"},
 		Run:      runC04,
 		Witness: []WitnessTarget{{pkgConfigCtl, []string{"Reconciler."}}, {pkgProposalCtl, []string{"reconcileApply"}}, {pkgValuesV2, []string{"PathValuesToGnmiChange"}},
@@ -24,6 +25,7 @@ func init() {
 }
 
 func runC04(c *engine.Ctx, tier string) {
+	recordCarriesNoValueMap(c)
 	c.Al = configAliases(c.P)
 	notPersistent := "!topo.Configurable{}.Persistent"
 	// (2) entering SYNCHRONIZING
@@ -592,5 +594,47 @@ func requestBuilder(c *engine.Ctx, id, rel string) {
 	}
 	if n > 0 {
 		o.Site(rel + ".PathValuesToGnmiChange")
+	}
+}
+
+// recordCarriesNoValueMap: C04.13 (seed C04-r52). The value maps live in primitives of their own; the record
+// written by the configuration store carries none of them. An embedded copy is what `populate` overlays the
+// primitive on: leaves the store pruned beneath a tombstone come back with the next Get, are written into the
+// applied values as live when the tombstone is lifted, and are pushed to the device at the next re-synchronisation.
+func recordCarriesNoValueMap(c *engine.Ctx) {
+	o := c.Custom("C04.13", "K-order(record write)", "v2 configuration store: the write of the record (map.Map.Insert / Update of the configurations primitive) in Create and Update is preceded by Values := nil, in UpdateStatus by Status.Applied.Values := nil",
+		"the applied configuration that is pushed again in a new term is what the applied primitive holds, not a stale copy embedded in the record")
+	defer o.Done(3)
+	ps, err := c.A.PathsOpt(pkgStoreCfgV2, engine.PathOpts{Roots: []string{".configurationStore.Create", ".configurationStore.Update", ".configurationStore.UpdateStatus"}, NoInline: true})
+	if err != nil {
+		o.Undecided(pkgStoreCfgV2, err.Error())
+		return
+	}
+	seen := map[string]bool{}
+	for _, p := range ps {
+		want := "config/v2.Configuration.Values"
+		if strings.HasSuffix(p.Root.Name(), ".UpdateStatus") {
+			want = "config/v2.AppliedConfigurationStatus.Values"
+		}
+		cleared := false
+		for i := range p.Events {
+			e := &p.Events[i]
+			if e.Kind == engine.EvWrite && e.Field == want {
+				cleared = e.RHS == "nil"
+			}
+			if e.Kind != engine.EvCall || !(e.CalleeName == "map.Map.Update" || e.CalleeName == "map.Map.Insert") || !strings.Contains(e.Recv, ".configurations") {
+				continue
+			}
+			o.Eval(1)
+			if !seen[p.Root.Name()] {
+				seen[p.Root.Name()] = true
+				o.Site(c.P.Pos(e.Pos) + " record write in " + p.Root.Name())
+			}
+			if !cleared {
+				o.Fail(&engine.Violation{Key: p.Root.Name() + "|record written with an embedded value map", Pos: c.P.Pos(e.Pos), Func: p.Root.Name(),
+					Msg: "the record is written without " + want + " having been set to nil: the embedded copy is overlaid by populate and resurrects what the primitive no longer holds"})
+				return
+			}
+		}
 	}
 }
